@@ -13,6 +13,7 @@ import Paroxy.Proofs.FlatEntries
 import Paroxy.Proofs.FlatTweaks
 import Paroxy.Proofs.FlatAlias
 import Paroxy.Proofs.FlatBackport
+import Paroxy.Proofs.FlatNeg
 namespace Paroxy.Props.C15
 open Paroxy.Flat
 
@@ -107,20 +108,14 @@ theorem C15_sequence (cfg : Cfg) (s : HashState) (ts : List Val) :
 
 /-! ## "With the documented tweaks only": line-level passes are tree-level tweaks
 
-The full statement is `C15_tweaks_full` below (a `def … : Prop`, not proved): every pass of
-`post_process`, applied to the dump of a well-formed tree, is the dump of the tree-level tweak.
-Five of the six passes are proved here (`suppress_kinds`, `suppress_alias_pos`, `suppress_posonlyargs`,
-`backport_all_constants` — i.e. the first four of the pipeline, also composed — and the last one,
-`unquote`), each under *local* clauses (`wfKinds`, `wfAlias`, `wfPosonly`, `wfBackport`, `wfUnquote`: per
-name / type / scalar line, Bool-valued, checked by the harness on every real tree). What is missing for
-`C15_tweaks_full`: the fifth pass `simplify_negative_literals` (two nested lazy searches over the rest of
-the text; same technique as `backport_all_constants`: continuation + "lines lie under their prefix"), the
-composition with it, and the equality of the staged tweaks with the one-shot `tweak`; these are exercised
-by the correspondence only (`c15.spec` = dump of `tweak`), on every run. -/
-
-/-- Full statement (not proved): post-processing the dump = dumping the tweaked tree. -/
-def C15_tweaks_full (WF : Val → Prop) : Prop :=
-  ∀ (h : Str → Str) (t : Val), WF t → postProcess (dumpP h [] [] t) = dumpP h [] [] (tweak [] t)
+Each of the six passes of `post_process`, applied to the dump of a tree, is the dump of a tree-level
+tweak, under *local* clauses (`wfKinds`, `wfAlias`, `wfPosonly`, `wfBackport`, `wfNeg`, `wfUnquote`: per
+name / type / scalar line / node shape; Bool-valued). `C15_tweaks_full` composes the six: under
+`wfStages6` (each pass's clauses on the tree that pass receives; evaluated by the driver on every real
+tree) post-processing the dump is the dump of `stage6 t`, the six tree-level tweaks in pipeline order.
+What stays exercised only: that `stage6` equals the one-shot specification `tweak` (which renames
+constants after their *real* kind; `stage6` after the repr prefix like the code) — compared by the
+driver on every real tree (`c15.spec`: `stage6_eq_tweak`). -/
 
 /-- **C15 (tweak: unquote), partial.** On the dump of a tree satisfying the local clauses of
 `wfUnquote` (no `=` in names; types untouched by the pass; a `str` repr is delimited by quotes, no
@@ -195,6 +190,41 @@ theorem C15_tweak_first_four_partial (t0 : Val) (ty : Str) (e : Bool) (r : Str) 
   rw [C15_tweak_first_three_partial t0 ty e r ln fs h1 h2 h3]
   exact C15_tweak_backport_partial t0 _ h4
 
+/-- **C15 (tweak: simplify_negative_literals), partial.** On the dump of a tree satisfying `wfNeg` (names
+as for `wfBackport`; a `UnaryOp` has the fields `op`, a bare operator node, and `operand`, a node which —
+when the operator is `USub` — either is exactly `(n = scalar)` or has no field `n`; no scalar line ends
+with `/_type=UnaryOp`), the pass — two nested lazy searches over the rest of the text — is exactly the
+dump of the tree in which every `-literal` has become a `Num` whose `n` carries the minus sign. -/
+theorem C15_tweak_neg_partial (t0 t : Val) (hwf : wfNeg [] t = true) :
+    simplifyNegativeLiterals (dumpP (hashFn t0) [] [] t) = dumpP (hashFn t0) [] [] (foldNeg t) := by
+  have := neg_dumpP (hashFn t0) (eq_not_mem_hashFn t0) t [] [] [] (by simp) (by simp) hwf
+    (by intro l hl; cases hl)
+  simpa [simplifyNegativeLiterals] using this
+
+/-- **C15 (the documented tweaks only).** Under `wfStages6` (the local clauses of the six passes),
+post-processing the dump of a tree is the dump of the tree after the six tree-level tweaks:
+`kind` fields dropped, alias positions dropped, `posonlyargs` lengths dropped, constants renamed by the
+text of their value, `-literal` folded, strings unquoted — and nothing else. -/
+theorem C15_tweaks_full (t0 : Val) (ty : Str) (e : Bool) (r : Str) (ln : Option Nat)
+    (fs : List (Str × Val)) (hwf : wfStages6 (.node ty e r ln fs) = true) :
+    postProcess (dumpP (hashFn t0) [] [] (.node ty e r ln fs)) =
+      dumpP (hashFn t0) [] [] (stage6 (.node ty e r ln fs)) := by
+  simp only [wfStages6, Bool.and_eq_true] at hwf
+  obtain ⟨⟨h4, h5⟩, h6⟩ := hwf
+  unfold postProcess
+  rw [C15_tweak_first_four_partial t0 ty e r ln fs h4, C15_tweak_neg_partial t0 _ h5]
+  exact C15_tweak_unquote_partial t0 _ h6
+
+/-- **C15 (the real pipeline).** What `flatten_ast` returns for a tree whose on-the-fly form is
+well-formed is the plain dump of the six tree-level tweaks of that form, hashes numbered by first
+occurrence in the untweaked tree. -/
+theorem C15_flatten_tweaked (cfg : Cfg) (s : HashState) (t : Val) (ty : Str) (e : Bool) (r : Str)
+    (ln : Option Nat) (fs : List (Str × Val)) (ht : onTheFly cfg t = .node ty e r ln fs)
+    (hwf : wfStages6 (onTheFly cfg t) = true) :
+    (flattenAst cfg s t).1 = dumpP (hashFn (onTheFly cfg t)) [] [] (stage6 (onTheFly cfg t)) := by
+  rw [C15_flatten_eq, ht] at *
+  exact C15_tweaks_full _ ty e r ln fs hwf
+
 /-- Non-vacuity: `x = u'a'` (exported shape) satisfies the sets of clauses. -/
 def sampleConst : Val :=
   .node cs!"Module" false [] none
@@ -204,7 +234,7 @@ def sampleConst : Val :=
           [(cs!"value", .scalar cs!"'a'" .str), (cs!"kind", .scalar cs!"'u'" .str)])]])]
 
 example : wfUnquote sampleConst = true ∧ wfKinds sampleConst = true ∧ wfPosonly [] sampleConst = true ∧
-    wfAlias [] sampleConst = true ∧ wfStages4 sampleConst = true := by
+    wfAlias [] sampleConst = true ∧ wfStages4 sampleConst = true ∧ wfStages6 sampleConst = true := by
   decide
 
 example : dumpP id [] [] (stage4 sampleConst) =
@@ -215,6 +245,23 @@ example : suppressKinds (dumpP id [] [] sampleConst) =
     [cs!"/_type=Module", cs!"/body/_length=1", cs!"/body/1/_type=Expr", cs!"/body/1/_pos=1:1-",
      cs!"/body/1/value/_type=Constant", cs!"/body/1/value/_hash=Constant(value='a', kind='u')",
      cs!"/body/1/value/_pos=1:1-0-", cs!"/body/1/value/value='a'"] := by decide
+
+/-- Non-vacuity of `C15_tweaks_full`: the exported tree of `-5` satisfies `wfStages6`, and its six staged
+tweaks give a `Num` with `n=-5` at the place of the `UnaryOp`. -/
+def sampleNeg : Val :=
+  .node cs!"Module" false [] none
+    [(cs!"body", .list false
+      [.node cs!"Expr" false [] (some 1)
+        [(cs!"value", .node cs!"UnaryOp" true cs!"UnaryOp(op=USub(), operand=Constant(value=5))" (some 1)
+          [(cs!"op", .node cs!"USub" false [] none []),
+           (cs!"operand", .node cs!"Constant" true cs!"Constant(value=5)" (some 1)
+             [(cs!"value", .scalar cs!"5" .num), (cs!"kind", .scalar cs!"None" .nameConst)])])]])]
+
+example : wfStages6 sampleNeg = true := by decide
+example : dumpP id [] [] (stage6 sampleNeg) =
+    [cs!"/_type=Module", cs!"/body/_length=1", cs!"/body/1/_type=Expr", cs!"/body/1/_pos=1:1-",
+     cs!"/body/1/value/_type=Num", cs!"/body/1/value/_hash=UnaryOp(op=USub(), operand=Constant(value=5))",
+     cs!"/body/1/value/_pos=1:1-0-", cs!"/body/1/value/n=-5"] := by decide
 
 /-! ## The repaired findings (positive statements) and a witness of the recorded one -/
 
